@@ -76,6 +76,10 @@ def problem(name, dtype):
         def f(t, y):
             return np.stack([-(1.0 + t * t) * y[0] * y[1], np.sin(t) - y[1] ** 3])
         return f
+    if name == "relay":       # switching right-hand side: the stage equations of implicit methods have no solution near the switch
+        def f(t, y):
+            return -20.0 * np.sign(y) + 0.0 * y
+        return f
     if name == "nanwall":      # smooth for |t| < 1/2, undefined beyond: no step can be taken across the wall
         def f(t, y):
             return -y if abs(t) < 0.5 else np.nan * y
